@@ -18,7 +18,11 @@ D. single flat sequences and 2-D equal-length input; E. KmerEncoding text <-> co
 V. input history: the cases of A (content variant 0), A', C, D and the samples once more with the same logical rows handed over as a
 NOT-YET-FLATTENED VIEW of a larger array (reads[::-1], reads[order], reads[mask], reads[1:], reads[:, 1:], reads[:, :-1], ...; see
 view_recipe), alphabet-encoded and ASCII, bit-packed and generic path, same per-row oracle; signatures carry ':view';
-F. scale: count_kmers with 1e6 / 2e6 / 3e6 (+-1, +3, +5) windows in total - the counting loop works in blocks of 1e6 windows.
+F. scale: count_kmers with 1e6 / 2e6 / 3e6 (+-1, +3, +5) windows in total - the counting loop works in blocks of 1e6 windows;
+G. scale: every rolling function with the number of windows (letters, k-mers) over the CONCATENATED rows at / next to multiples of 2**16..2**21;
+H. histories: one scorer object (or module-level function) scores several inputs in a row - both strands of the same reads, other reads
+of the same total size, another size in between - and every earlier result is re-read after every later call (no result may be
+overwritten by a later call, no input modified).
 Precondition kept: total number of letters >= window (the statement's quantifier), |A|**k representable in int64.
 """
 import itertools
@@ -601,6 +605,276 @@ def check_big_counts(col, alph, layout, windows, k, axis, view=None, text=False,
     col.check(labels == e, "count_kmers:labels-differ-from-kmer-text", case, "got %r expected %r" % (labels[:20], e[:20]))
 
 
+# ---- scale for the rolling functions: the number of windows over the CONCATENATED rows (what the flatten-convolve-rewrap scheme
+# actually iterates over) is an exact multiple of a power-of-two block size, or just next to one
+BIG_SIG = {"kmers": "get_kmers:%s:large", "kmers-rolling": "get_kmers:generic-rolling:large", "minimizers": "get_minimizers:large",
+           "match": "match_string:alphabet:large", "match-ascii": "match_string:ascii:large", "motif": "get_motif_scores:large",
+           "motif-old": "motif_scores_rolling:large"}
+
+
+def total_lengths(layout, w, n):
+    """row lengths with exactly n letters in total.  one: a single row; long: a few very long rows between short / empty ones;
+    reads: rows of 0..150 letters (rows shorter than w, of w-1, w, w+1 letters among them); every layout ends with a short row"""
+    if layout == "one":
+        return [n]
+    if layout == "long":
+        lens = [w - 1, n // 3 + 11, 0, 1, w, n // 4 + 7, w + 1]
+    else:
+        lens, tot, i = [], 0, 0
+        while n - tot > 400:
+            L = (0, w - 1, w, w + 1, 1)[(i // 13) % 5] if i % 13 == 0 else 20 + (i * 37 + (i * i) // 7) % 131
+            lens.append(L)
+            tot += L
+            i += 1
+    rest = n - sum(lens) - (w - 1)
+    assert rest > 0
+    lens += [rest, 0, w - 1]
+    assert sum(lens) == n
+    return lens
+
+
+def check_big_rolling(col, fn, alph, layout, N, align, w, k=None, salt=0):
+    """one rolling function on an input whose size is tied to N (a multiple of a power of two, or next to one):
+    align = windows: N windows of the function's size w over the concatenation (n = N + w - 1 letters);
+    letters: n = N letters; kmers (minimizers): N k-mers over the concatenation (n = N + k - 1).
+    Oracle: values computed here from the letters by explicit shifted slices; a window is kept only when its first and last letter lie
+    in the same row; expected row r has max(L_r - w + 1, 0) values - compared as (row lengths, flat values in row order)."""
+    import numpy as np
+    import bionumpy as bnp
+    from bionumpy.sequence import get_kmers, get_minimizers
+    from bionumpy.sequence.kmers import KmerEncoder
+    from bionumpy.sequence.position_weight_matrix import PWM, get_motif_scores, get_motif_scores_old
+    from bionumpy.encoded_array import EncodedArray, EncodedRaggedArray, BaseEncoding
+    A = len(alph)
+    case = {"fn": "bigroll", "f": fn, "alph": alph, "layout": layout, "N": N, "align": align, "w": w, "k": k, "salt": salt}
+    sig = BIG_SIG[fn]
+    if fn == "kmers":
+        sig = sig % ("bitpacked" if A == 4 else "generic")
+    col.case(case, contract=sig)
+    n = {"windows": N + w - 1, "letters": N, "kmers": N + (k or w) - 1}[align]
+    lens = np.array(total_lengths(layout, w, n), dtype=np.int64)
+    nrows = len(lens)
+    letters = big_letters(n, A, salt)
+    m = n - w + 1
+    row_id = np.repeat(np.arange(nrows), lens)
+    valid = row_id[:m] == row_id[w - 1:]
+    exp_lens = np.maximum(lens - w + 1, 0)
+    assert int(valid.sum()) == int(exp_lens.sum())
+
+    def codes(kk):
+        mm = n - kk + 1
+        c = np.zeros(mm, dtype=np.int64)
+        for j in range(kk):
+            c += letters[j:j + mm].astype(np.int64) * (A ** j)
+        return c
+
+    text = fn == "match-ascii"
+    codes8 = np.frombuffer(alph.encode(), dtype=np.uint8)[letters] if text else letters.copy()
+    seqs = EncodedRaggedArray(EncodedArray(codes8, BaseEncoding if text else enc_of(alph)), lens)
+    if fn in ("kmers", "kmers-rolling"):
+        exp = codes(w)
+        call = (lambda: get_kmers(seqs, w)) if fn == "kmers" else (lambda: KmerEncoder(w, enc_of(alph)).rolling_window(seqs))
+    elif fn == "minimizers":
+        c = codes(k)
+        exp = c[:m].copy()
+        for j in range(1, w - k + 1):
+            exp = np.minimum(exp, c[j:j + m])
+        call = lambda: get_minimizers(seqs, k, w)
+    elif fn in ("match", "match-ascii"):
+        p0 = int(lens[0] + lens[1] // 2) if layout == "long" else n // 2     # long: a window inside a long row
+        pat = letters[p0:p0 + w]
+        exp = np.ones(m, dtype=bool)
+        for j in range(w):
+            exp &= letters[j:j + m] == pat[j]
+        case["pattern_at"] = p0
+        call = lambda: bnp.match_string(seqs, "".join(alph[i] for i in pat))
+    else:
+        M = np.array(make_matrix(A, w, "ints"), dtype=float)       # small integers: sums are exact in any order
+        exp = np.zeros(m, dtype=float)
+        for j in range(w):
+            exp += M[letters[j:j + m], j]
+        pwm = PWM(M.copy(), alph)
+        call = (lambda: get_motif_scores(seqs, pwm)) if fn == "motif" else (lambda: get_motif_scores_old(seqs, pwm))
+    exp = exp[valid]
+    res = col.guarded(call, sig, case)
+    if res is None:
+        return
+
+    def read():
+        flat = res.ravel()
+        return np.asarray(res.lengths).astype(np.int64), np.asarray(flat.raw() if hasattr(flat, "raw") else flat)
+    got = col.guarded(read, sig + ":unreadable-result", case)
+    if got is None:
+        return
+    got_lens, got_flat = got
+    if not col.check(len(got_lens) == nrows, sig + ":row-count", case, "%d rows, the input has %d" % (len(got_lens), nrows)):
+        return
+    bad = np.flatnonzero(got_lens != exp_lens)
+    if not col.check(len(bad) == 0, sig + ":row-lengths", case, "%d rows with a wrong number of values, first: row %r (%r letters) has %r, expected %r (w=%d)"
+                     % (len(bad), bad[:1].tolist(), lens[bad[:1]].tolist(), got_lens[bad[:1]].tolist(), exp_lens[bad[:1]].tolist(), w)):
+        return
+    bad = np.flatnonzero(got_flat != exp) if got_flat.shape == exp.shape else np.arange(1)
+    col.check(len(bad) == 0, sig + ":wrong-value", case, "%d of %d values differ from the per-row definition, first at flat position %r: got %r expected %r"
+              % (len(bad), exp.size, bad[:1].tolist(), got_flat[bad[:1]].tolist() if got_flat.shape == exp.shape else got_flat.shape,
+                 exp[bad[:1]].tolist()))
+
+
+# ---- histories on ONE scorer object: results handed out earlier must stay valid after later calls on the same object
+HIST_SIG = {"pwm-api": "get_motif_scores", "pwm-old": "motif_scores_rolling", "pwm-rolling": "PositionWeightMatrix.rolling_window",
+            "pwm-flat": "PWM.calculate_scores", "kmer-encoder": "KmerEncoder.rolling_window", "minimizers": "Minimizers.rolling_window",
+            "matcher": "StringMatcher.rolling_window", "api-kmers": "get_kmers", "api-match": "match_string",
+            "api-minimizers": "get_minimizers", "api-counts": "count_kmers"}
+HIST_OBJECTS = ["pwm-api", "kmer-encoder", "pwm-flat", "matcher", "pwm-old", "minimizers", "pwm-rolling", "api-kmers", "api-match",
+                "api-minimizers", "api-counts"]
+HISTORIES = ["strands", "relayout", "sizes", "strands3", "again"]
+
+
+def shift_rows(rows, alph, by=1):
+    return ["".join(alph[(alph.index(c) + by) % len(alph)] for c in r) for r in rows]
+
+
+def rc_rows(rows, alph):
+    """the other strand of every read: reversed, letter i of the alphabet <-> letter |A|-1-i (A<->T, C<->G for ACGT)"""
+    return ["".join(alph[len(alph) - 1 - alph.index(c)] for c in reversed(r)) for r in rows]
+
+
+def history_steps(alph, rows, hist, w, kind):
+    """the inputs one object sees, in order.  strands: the reads, then their other strand (same row lengths); strands3: and the reads
+    again; again: the same input twice; relayout (ragged): other reads with the same TOTAL number of letters but other row lengths;
+    sizes: an input one letter (2-D: one column) shorter in between two inputs of the same size.  Every step keeps total >= w."""
+    rc = rc_rows(rows, alph)
+    if hist == "strands":
+        return [rows, rc]
+    if hist == "strands3":
+        return [rows, rc, list(rows)]
+    if hist == "again":
+        return [rows, list(rows)]
+    other = shift_rows(rows, alph)
+    if hist == "sizes":
+        if kind == "2d":
+            shorter = [r[:-1] for r in rows]
+            okay = len(rows[0]) - 1 >= max(w, 1)
+        else:
+            last = max(i for i, r in enumerate(rows) if r)
+            shorter = [r[:-1] if i == last else r for i, r in enumerate(rows)]
+            okay = sum(len(r) for r in shorter) >= w
+        return [rows, shorter, other] if okay else [rows, other]
+    assert hist == "relayout" and kind == "ragged"
+    lens = [len(r) for r in rows]
+    new = lens[1:] + lens[:1]
+    if new == lens:
+        if len(lens) == 1:
+            new = [lens[0] // 2, lens[0] - lens[0] // 2]
+        elif lens[-1] > 0:
+            new = [lens[0] + 1] + lens[1:-1] + [lens[-1] - 1]
+        else:
+            new = lens + [0]
+    flat = "".join(rc_rows(other, alph))
+    cut, p = [], 0
+    for L in new:
+        cut.append(flat[p:p + L])
+        p += L
+    assert p == len(flat)
+    return [rows, cut]
+
+
+def check_history(col, obj, hist, alph, rows, w, k=None, kind="ragged", text=False, style="digits"):
+    """ONE object (PWM / PositionWeightMatrix / KmerEncoder / Minimizers / StringMatcher; api-*: the module-level function) scores the
+    inputs of history_steps one after the other; the library's result objects are kept as they are (no copy).  After every call every
+    result obtained so far must equal the per-row definition on ITS input, and every input must still hold its letters."""
+    import numpy as np
+    import bionumpy as bnp
+    from bionumpy.sequence import get_kmers, get_minimizers, count_kmers
+    from bionumpy.sequence.kmers import KmerEncoder
+    from bionumpy.sequence.minimizers import Minimizers
+    from bionumpy.sequence.string_matcher import StringMatcher
+    from bionumpy.sequence.position_weight_matrix import PWM, PositionWeightMatrix, get_motif_scores, get_motif_scores_old
+    A = len(alph)
+    case = {"fn": "history", "obj": obj, "hist": hist, "alph": alph, "rows": rows, "w": w, "k": k, "kind": kind, "text": text, "style": style}
+    sig = HIST_SIG[obj] + ":history"
+    col.case(case, contract=sig)
+    steps = history_steps(alph, rows, hist, w, kind)
+    enc = enc_of(alph)
+    fl = lambda res: [[float(x) for x in r] for r in rows_of(res, kind)]
+    it = lambda res: [[int(x) for x in r] for r in rows_of(res, kind)]
+    if obj.startswith("pwm"):
+        M = make_matrix(A, w, style)
+        pwm = PWM(np.array(M, dtype=float), alph)
+        oracle = lambda rr: o_motif(idx_rows(rr, alph), M)
+        read = fl
+        if obj == "pwm-api":
+            call = lambda s: get_motif_scores(s, pwm)
+        elif obj == "pwm-old":
+            call = lambda s: get_motif_scores_old(s, pwm)
+        elif obj == "pwm-rolling":
+            roller = PositionWeightMatrix(pwm)
+            call = lambda s: roller.rolling_window(s)
+        else:
+            assert kind == "flat"
+            call = lambda s: pwm.calculate_scores(s)
+            read = lambda res: [[float(x) for x in res[:max(len(res) - w + 1, 0)]]]      # the entries of the windows inside the sequence
+    elif obj in ("kmer-encoder", "api-kmers"):
+        oracle = lambda rr: o_kmers(idx_rows(rr, alph), A, w)
+        read = it
+        if obj == "kmer-encoder":
+            encoder = KmerEncoder(w, enc)
+            call = lambda s: encoder.rolling_window(s)
+        else:
+            call = lambda s: get_kmers(s, w)
+    elif obj in ("minimizers", "api-minimizers"):
+        oracle = lambda rr: o_minimizers(idx_rows(rr, alph), A, k, w)
+        read = it
+        if obj == "minimizers":
+            mini = Minimizers(w - k + 1, KmerEncoder(k, enc))
+            call = lambda s: mini.rolling_window(s)
+        else:
+            call = lambda s: get_minimizers(s, k, w)
+    elif obj in ("matcher", "api-match"):
+        pat = (patterns_for(rows, w, alph, False) or [alph[0] * w])[0]
+        case["pat"] = pat
+        oracle = lambda rr: o_match(rr, pat)
+        read = lambda res: [[bool(x) for x in r] for r in rows_of(res, kind)]
+        if obj == "matcher":
+            from bionumpy.encoded_array import BaseEncoding
+            matcher = StringMatcher(pat, BaseEncoding if text else enc)
+            call = lambda s: matcher.rolling_window(s)
+        else:
+            call = lambda s: bnp.match_string(s, pat)
+    else:
+        assert obj == "api-counts" and kind == "ragged"
+
+        def oracle(rr):
+            e = [0] * A ** w
+            for r in o_kmers(idx_rows(rr, alph), A, w):
+                for c in r:
+                    e[c] += 1
+            return [e]
+        read = lambda res: [[int(x) for x in res.counts.tolist()]]
+        call = lambda s: count_kmers(s, w)
+    same = lambda g, e: len(g) == len(e) and all(len(a) == len(b) and all(close(x, y) for x, y in zip(a, b)) for a, b in zip(g, e))
+    done = []
+    for i, srows in enumerate(steps):
+        inp = build(alph, srows, kind, text)
+        before = inp.raw().tolist()
+        res = col.guarded(lambda: call(inp), sig, case)
+        if res is None:
+            return
+        done.append((res, oracle(srows), inp, before))
+        for j, (r, e, s, b) in enumerate(done):
+            g = col.guarded(lambda: read(r), sig + ":unreadable-result", case)
+            if g is None:
+                return
+            if j == i:
+                ok = col.check(same(g, e), sig + (":first-call-wrong" if i == 0 else ":later-call-wrong"), case,
+                               "call %d of %r on %r: got %r expected %r" % (i, hist, srows, g, e))
+            else:
+                ok = col.check(same(g, e), sig + ":earlier-result-changed", case,
+                               "the result of call %d (input %r) reads %r after call %d (input %r); it was and should be %r" % (j, steps[j], g, i, srows, e))
+            ok = col.check(s.raw().tolist() == b, sig + ":input-modified", case, "input of call %d after call %d: %r, was %r" % (j, i, s.raw().tolist(), b)) and ok
+            if not ok:
+                return
+
+
 def check_util_rolling(col, rows, w, kind, view=None):
     """bionumpy.util.rolling_window_function with f = weighted window sum (position-sensitive); values 1..8"""
     import numpy as np
@@ -697,10 +971,14 @@ def run(tier="quick", seed=0):
                     "unflattened view of a larger array (%d ragged view kinds: rows reversed / reordered / repeated / masked / sliced, columns "
                     "trimmed left / right / both, combinations; sliced 2-D and 1-D arrays), view kind cycling with (shape, w, alphabet) so that "
                     "every kind meets every function, path and window; F: count_kmers with the window total around the counting block size "
-                    "(1e6, 2e6, 3e6: -1, +0, +1, +3/+5). "
+                    "(1e6, 2e6, 3e6: -1, +0, +1, +3/+5); G: the rolling functions (k-mers, minimizers, string match, motif scores) on inputs whose "
+                    "number of windows / letters / k-mers over the concatenated rows is a multiple of 2**16 .. 2**21 or next to one; "
+                    "H: histories - ONE scorer object (PWM, PositionWeightMatrix, KmerEncoder, Minimizers, StringMatcher, or the module-level "
+                    "function) scores 2..3 inputs in a row (both strands of the same reads, other reads with the same total size, a different "
+                    "size in between, the same input again): every result handed out earlier is re-read after every later call. "
                     "distinct = distinct (function, path, alphabet, rows, window, pattern/matrix); all non-trivial except all-rows-shorter-than-w "
                     "(kept: they exercise the 'none for a short sequence' clause)" % (Lmax, wmax, len(VIEWS)),
-                    budget_s=(55 if quick else 570))
+                    budget_s=(65 if quick else 630))
     col.bounds = {"A.rows": "1..3", "A.row_length": "0..%d" % Lmax, "A.w": "1..%d" % wmax, "A'.4rows": "lengths in {0,1,w-1,w,w+1}, w in %s" % ("{2}" if quick else "{2,3,4}"),
                   "sampling": "%d seeded cases: 4..6 rows, lengths 0..12, w 1..12" % (150 if quick else 3000),
                   "A.alphabets": {"get_kmers": ALPHABETS, "minimizers/match/motif/counts": ["ACGT", "ACG"]},
@@ -753,6 +1031,82 @@ def run(tier="quick", seed=0):
             ("ACG", "long", 2000005, 3, None, "head", False), ("ACGT", "long", 1000003, 1, None, "rev", True),
             ("ACGT", "reads", 2000005, 2, -1, "col-left", False), ("ACGT", "reads", 1000003, 3, None, None, True))[:(6 if quick else 10)]:
         check_big_counts(col, alph, layout, windows, k, axis, view=view, text=text, salt=3)
+
+    # ---- G. scale for the rolling functions: window / letter / k-mer totals over the concatenation at multiples of 2**16 .. 2**21
+    P = 65536
+    mini_cfg = (("ACGT", 3, 6), ("ACG", 2, 9))
+    other_cfg = (("kmers", "ACGT", 6), ("kmers", "ACG", 5), ("kmers-rolling", "ACGT", 4), ("match", "ACGT", 6), ("match-ascii", "ACGT", 5),
+                 ("motif", "ACGT", 6), ("motif-old", "ACG", 5), ("kmers", "ACGTN", 3), ("motif", "ACG", 4))
+    layouts = ("reads", "long", "one")
+    gi = 0
+    if quick:
+        plan = [("minimizers", a, k, w, N, al) for (a, k, w), N, al in (
+            (mini_cfg[0], 2 * P, "windows"), (mini_cfg[0], P, "windows"), (mini_cfg[0], 2 * P - 1, "windows"), (mini_cfg[0], 2 * P + 1, "windows"),
+            (mini_cfg[0], 4 * P, "windows"), (mini_cfg[1], 2 * P, "windows"), (mini_cfg[1], 2 * P, "kmers"), (mini_cfg[0], 2 * P, "letters"))]
+        plan += [(f, a, None, w, N, al) for f, a, w in other_cfg[:7] for N, al in ((2 * P, "windows"), (P, "windows"), (2 * P, "letters"))]
+    else:
+        plan = []
+        for N0 in (P, 2 * P, 3 * P, 4 * P, 8 * P, 16 * P, 32 * P):
+            for off in ((-1, 0, 1) if N0 <= 4 * P else (0,)):
+                for ci, (a, k, w) in enumerate(mini_cfg):
+                    if N0 <= 8 * P or ci == 0:
+                        plan += [("minimizers", a, k, w, N0 + off, al) for al in (("windows", "kmers", "letters") if off == 0 and N0 <= 4 * P else ("windows",))]
+                for f, a, w in other_cfg:
+                    plan += [(f, a, None, w, N0 + off, al) for al in (("windows", "letters") if off == 0 else ("windows",))]
+    for f, a, k, w, N, al in plan:
+        check_big_rolling(col, f, a, layouts[gi % 3] if N <= 4 * P or gi % 3 else "reads", N, al, w, k=k, salt=gi % 5)
+        gi += 1
+        if gi % 10 == 0 and stop():
+            return col.result()
+    col.bounds["G.sizes"] = ("windows of the function's size over the concatenated rows (also: letters in total, k-mers over the concatenation) = "
+                             "2**16 * {1, 2, 4}, 2**17 +- 1 (quick) / 2**16 * {1, 2, 3, 4} + {-1, 0, 1}, 2**16 * {8, 16, 32} (thorough); get_minimizers (k,w) = "
+                             "(3,6) ACGT, (2,9) ACG; get_kmers bit-packed / generic / KmerEncoder.rolling_window, match_string alphabet / ascii, "
+                             "get_motif_scores, rolling PositionWeightMatrix; layouts: reads of 0..150 letters, a few long rows, one row")
+
+    # ---- H. histories on one scorer object: every shape of 1..3 rows x w x alphabet; object kind and history kind cycle
+    hshapes = [t for n in (1, 2, 3) for t in itertools.product(range(Lmax + 1), repeat=n)]
+    hcnt = 0
+    for si, lengths in enumerate(hshapes):
+        tot = sum(lengths)
+        for w in range(1, wmax + 1):
+            if tot < w:
+                continue
+            for ai, alph in enumerate(("ACGT", "ACG")):
+                A = len(alph)
+                rows = content(lengths, alph, (si + w) % 2)
+                for oi in range(2 if quick else 4):
+                    hcnt += 1
+                    obj = HIST_OBJECTS[(hcnt + (hcnt // len(HIST_OBJECTS)) * 3) % len(HIST_OBJECTS)]
+                    hist = HISTORIES[(hcnt // 2 + si + w) % len(HISTORIES)]
+                    if obj == "api-counts" and A ** w > 64:
+                        obj = "pwm-api"
+                    x = hcnt // 7
+                    text = alph == "ACGT" and x % 2 == 1 and obj in ("pwm-api", "pwm-flat", "pwm-rolling", "matcher", "api-match", "api-kmers", "api-counts")
+                    style = ("digits", "digits", "floats", "ints")[x % 4]
+                    k = 1 + (si + hcnt) % w
+                    if obj == "pwm-flat":
+                        check_history(col, obj, hist if hist != "relayout" else "strands", alph, ["".join(rows)], w, kind="flat", text=text, style=style)
+                    else:
+                        check_history(col, obj, hist, alph, rows, w, k=k, text=text, style=style)
+        if si % 5 == 0 and stop():
+            return col.result()
+    # 1-D and 2-D inputs (strands / sizes / again)
+    for alph in ("ACGT", "ACG"):
+        for n in (1, 2, 3):
+            for L in range(1, Lmax + 1):
+                rows = content([L] * n, alph, 1)
+                for w in range(1, min(L, wmax) + 1):
+                    for oi in range(2 if quick else 5):
+                        hcnt += 1
+                        obj = [o for o in HIST_OBJECTS if o not in ("api-counts", "pwm-flat")][hcnt % 9]
+                        hist = ("strands", "sizes", "strands3", "again")[(hcnt // 3) % 4]
+                        kind = "2d" if n > 1 else "flat"
+                        if obj == "pwm-api" and kind == "2d":      # get_motif_scores takes ragged and 1-D input only
+                            kind = "flat"
+                        check_history(col, obj, hist, alph, rows if kind == "2d" else rows[:1], w, k=1 + hcnt % w, kind=kind,
+                                      style=("digits", "floats")[hcnt % 2])
+    col.bounds["H.histories"] = {"objects": HIST_OBJECTS, "histories": HISTORIES, "shapes": "1..3 rows of 0..%d letters, w 1..%d, ACGT and ACG; "
+                                 "1..3 x 1..%d as 2-D / 1-D" % (Lmax, wmax, Lmax), "per (shape, w, alphabet)": 2 if quick else 4}
 
     # ---- C. long layouts, every k
     for alph in ALPHABETS:
@@ -1021,6 +1375,11 @@ def replay(case):
                          text=case.get("text", False), salt=case.get("salt", 0))
     elif fn == "util":
         check_util_rolling(col, case["rows"], case["w"], case["kind"], view=case.get("view"))
+    elif fn == "bigroll":
+        check_big_rolling(col, case["f"], case["alph"], case["layout"], case["N"], case["align"], case["w"], k=case.get("k"), salt=case.get("salt", 0))
+    elif fn == "history":
+        check_history(col, case["obj"], case["hist"], case["alph"], case["rows"], case["w"], k=case.get("k"), kind=case["kind"],
+                      text=case.get("text", False), style=case.get("style", "digits"))
     else:
         return False, "unknown case kind %r" % (fn,)
     if col.failures:
